@@ -251,6 +251,41 @@ theorem C09_w_source :
     ∧ Pms.Gen.Boo.wRow = "selected.append(np.array([m1, m2, m3, windex]))"
     ∧ Pms.Gen.Boo.wReturn = "return np.ravel(np.array(selected)).reshape(-1, 4)" := by decide
 
+/-- **odd degrees: w_l vanishes identically.**  If the table of 3-j numbers changes sign when its first two orders are exchanged —
+the symmetry of (l l l; m1 m2 m3) for odd 3l, i.e. for every odd l (a contract on sympy's numbers, monitored on the real table) —
+then the value the code computes is 0 for EVERY q_lm: the product q_{m1} q_{m2} q_{m3} and the selection m1 + m2 + m3 = 0 are
+symmetric under the exchange, the weight antisymmetric.  Hence w_l, and with it ŵ_l, is trivially invariant under rotations (and
+anything else) for odd l; a "reduced" table that keeps one triple of each mirror pair and doubles it is wrong exactly there. -/
+theorem C09_w_odd_zero (l : ℕ) (w3j : ℤ → ℤ → ℤ → ℝ) (hanti : ∀ a b c, w3j a b c = -w3j b a c) (q : ℕ → ℂ) :
+    wImpl cOps (triples l) w3j (Pms.Gen.Boo.idxShift l) q = 0 := by
+  rw [C09_w_def]
+  set f : ℕ → ℕ → ℕ → ℝ := fun a b c =>
+    if ((a : ℤ) - l) + ((b : ℤ) - l) + ((c : ℤ) - l) = 0
+    then (q a * q b * q c).re * w3j ((a : ℤ) - l) ((b : ℤ) - l) ((c : ℤ) - l) else 0 with hf
+  have hswap : ∀ a b c, f a b c = -f b a c := by
+    intro a b c
+    simp only [hf]
+    have hc : (((a : ℤ) - l) + ((b : ℤ) - l) + ((c : ℤ) - l) = 0) ↔ (((b : ℤ) - l) + ((a : ℤ) - l) + ((c : ℤ) - l) = 0) := by
+      constructor <;> intro h <;> linarith
+    by_cases h : ((a : ℤ) - l) + ((b : ℤ) - l) + ((c : ℤ) - l) = 0
+    · rw [if_pos h, if_pos (hc.1 h), hanti, mul_comm (q a) (q b)]; ring
+    · rw [if_neg h, if_neg (fun h' => h (hc.2 h'))]; simp
+  have hS : (∑ a ∈ range (2 * l + 1), ∑ b ∈ range (2 * l + 1), ∑ c ∈ range (2 * l + 1), f a b c) =
+      -(∑ a ∈ range (2 * l + 1), ∑ b ∈ range (2 * l + 1), ∑ c ∈ range (2 * l + 1), f a b c) := by
+    conv_lhs => rw [Finset.sum_comm]
+    rw [← Finset.sum_neg_distrib]
+    apply Finset.sum_congr rfl; intro a _
+    rw [← Finset.sum_neg_distrib]
+    apply Finset.sum_congr rfl; intro b _
+    rw [← Finset.sum_neg_distrib]
+    apply Finset.sum_congr rfl; intro c _
+    exact hswap b a c
+  linarith
+
+/-- the hypothesis of `C09_w_odd_zero` is satisfiable by a non-zero table: the Levi-Civita-like weight on orders (−1, 0, 1) of l = 1 -/
+example : ∃ w3j : ℤ → ℤ → ℤ → ℝ, (∀ a b c, w3j a b c = -w3j b a c) ∧ w3j (-1) 0 1 ≠ 0 :=
+  ⟨fun a b c => ((a - b) * (b - c) * (c - a) : ℤ), fun a b c => by push_cast; ring, by norm_num⟩
+
 /-- ŵ_l = w_l (Σ_m |q_lm|²)^{−3/2}, the exponent being the REGENERATED one -/
 theorem C09_wcap_def (L : ℕ) (wv : ℝ) (q : ℕ → ℂ) (hS : 0 < ∑ k ∈ range L, Complex.normSq (q k)) :
     wcapImpl cOps L wv q = (∑ k ∈ range L, Complex.normSq (q k)) ^ ((Pms.Gen.Boo.wcapExponent : ℚ) : ℝ) * wv := by
